@@ -276,31 +276,20 @@ func runForwarderOpt(e *vlib.Env, conc bool) vlib.Result {
 			batches[i].topic = destTopics[i%nPublishers]
 		}
 	}
+	// the outbox (the wrapped publisher of forwarder.Publisher) refuses calls now and then: see outboxPlan
+	ob := newOutboxFaults(r.Fork(), batches, nPublishers > 1)
 	var msgs []*relayMsg
 	if nPublishers == 1 {
-		outbox := &vlib.Pub{Name: e.ID() + ".outbox"}
-		fp := forwarder.NewPublisher(outbox, forwarder.PublisherConfig{ForwarderTopic: fwdTopic})
-		for _, b := range batches {
-			before := len(outbox.Calls())
-			err := fp.Publish(b.topic, b.orig...)
-			calls := outbox.Calls()[before:]
-			if err != nil || len(calls) != 1 || calls[0].Topic != eff || len(calls[0].Msgs) != len(b.orig) {
-				got := "no call"
-				if len(calls) > 0 {
-					got = fmt.Sprintf("%d call(s), first on topic %q with %d messages", len(calls), calls[0].Topic, len(calls[0].Msgs))
-				}
-				res.Fail("publisher-envelope", "forwarder.Publisher(ForwarderTopic=%q).Publish(%q, %d msgs) returned %v and made %s; want one Publish of %d envelopes on %q", fwdTopic, b.topic, len(b.orig), err, got, len(b.orig), eff)
-				return res
-			}
-			for i, env := range calls[0].Msgs {
-				rm := &relayMsg{Kind: "envelope", SrcTopic: eff, Orig: env, Valid: true, WantTopic: b.topic, Want: vlib.Snap(b.orig[i])}
-				rm.Plan, rm.MaxRedeliver = genPlan(r)
-				msgs = append(msgs, rm)
-			}
+		var ok bool
+		if msgs, ok = publishSerially(e, &res, ob, fwdTopic, eff, batches); !ok {
+			return res
+		}
+		for _, rm := range msgs {
+			rm.Plan, rm.MaxRedeliver = genPlan(r)
 		}
 	} else {
 		var ok bool
-		if msgs, ok = publishConcurrently(e, &res, fwdTopic, eff, destTopics[:nPublishers], batches); !ok {
+		if msgs, ok = publishConcurrently(e, &res, ob, fwdTopic, eff, destTopics[:nPublishers], batches); !ok {
 			return res
 		}
 		for _, rm := range msgs {
@@ -373,8 +362,9 @@ func runForwarderOpt(e *vlib.Env, conc bool) vlib.Result {
 	byTopic := map[string][]*relayMsg{eff: msgs}
 	drive(&res, comp, src, mon, []string{eff}, byTopic, co)
 	st := mon.judge(&res, msgs, judgeCfg{component: "Forwarder", ackCannotUnwrap: ackCU})
-	fill(&res, st, mon, msgs, o.any() || st.optionalForwarded+st.optionalRefused > 0)
+	fill(&res, st, mon, msgs, o.any() || st.optionalForwarded+st.optionalRefused > 0 || ob.refused() > 0)
 	o.count(&res)
+	ob.count(&res)
 	if nMw > 0 {
 		res.Count("middleware_calls", int(mwCalls.Load()))
 	}
@@ -385,7 +375,7 @@ func runForwarderOpt(e *vlib.Env, conc bool) vlib.Result {
 	for _, rm := range msgs {
 		kinds[strings.SplitN(rm.Kind, "/", 2)[0]]++
 	}
-	res.Sig = vlib.Sig("fwd", ackCU, fwdTopic == "", nMw, ownRouter, closeTimeout, len(destTopics), shapeSig(msgs))
+	res.Sig = vlib.Sig("fwd", ackCU, fwdTopic == "", nMw, ownRouter, closeTimeout, len(destTopics), shapeSig(msgs), ob.sig())
 	if conc {
 		co.count(&res)
 		res.NonTrivial = st.relayed > 0 && co.multiRelease > 0
@@ -407,32 +397,29 @@ func runForwarderOpt(e *vlib.Env, conc bool) vlib.Result {
 
 // publishConcurrently runs stage 1 with one goroutine per destination topic, all on the same forwarder.Publisher,
 // whose outbox is gated (it reads its arguments late). ok=false: verdict set.
-func publishConcurrently(e *vlib.Env, res *vlib.Result, fwdTopic, eff string, topics []string, batches []fwdBatch) ([]*relayMsg, bool) {
+func publishConcurrently(e *vlib.Env, res *vlib.Result, ob *outboxFaults, fwdTopic, eff string, topics []string, batches []fwdBatch) ([]*relayMsg, bool) {
 	co := newConc(e.R, len(topics), "publisher")
 	defer co.gate.openForever()
-	outbox := &vlib.Pub{Name: e.ID() + ".outbox"}
-	fp := forwarder.NewPublisher(&gatedPub{inner: outbox, g: co.gate}, forwarder.PublisherConfig{ForwarderTopic: fwdTopic})
-	perTopic := map[string][]fwdBatch{}
-	for _, b := range batches {
-		perTopic[b.topic] = append(perTopic[b.topic], b)
+	outbox := &vlib.Pub{Name: e.ID() + ".outbox", Script: ob.script}
+	fps := ob.publishers(&gatedPub{inner: outbox, g: co.gate}, fwdTopic)
+	perTopic := map[string][]*outboxAttempt{}
+	for i, b := range batches {
+		perTopic[b.topic] = append(perTopic[b.topic], ob.attempts[i]...)
 	}
-	errs := make([]error, len(topics))
 	var wg sync.WaitGroup
-	for g, t := range topics {
+	for _, t := range topics {
 		if len(perTopic[t]) == 0 {
 			continue
 		}
 		wg.Add(1)
 		co.active.Add(1)
-		go func(g int, list []fwdBatch) {
+		go func(list []*outboxAttempt) {
 			defer wg.Done()
 			defer co.active.Add(-1)
-			for _, b := range list {
-				if err := fp.Publish(b.topic, b.orig...); err != nil && errs[g] == nil {
-					errs[g] = err
-				}
+			for _, a := range list {
+				ob.publish(fps, a) // a refused call is retried with the same messages, or the batch is given up: see newOutboxFaults
 			}
-		}(g, perTopic[t])
+		}(perTopic[t])
 	}
 	wd := vlib.WD
 	wd.IgnoreFrames = []string{gateFrame}
@@ -441,40 +428,11 @@ func publishConcurrently(e *vlib.Env, res *vlib.Result, fwdTopic, eff string, to
 		res.Witness = dump
 		return nil, false
 	}
-	for g, err := range errs {
-		if err != nil {
-			res.Fail("publisher-envelope", "forwarder.Publisher.Publish(%q, ...) failed although the wrapped publisher accepts everything: %v", topics[g], err)
-			return nil, false
-		}
-	}
-	// pair every outbox call with its batch: the envelope names the destination topic, the calls of one topic are in batch order
-	seen := map[string]int{}
-	var msgs []*relayMsg
-	for _, c := range outbox.Calls() {
-		var env refEnvelope
-		if len(c.Msgs) == 0 || c.Topic != eff || json.Unmarshal(c.Msgs[0].Payload, &env) != nil || len(perTopic[env.DestinationTopic]) <= seen[env.DestinationTopic] {
-			first := ""
-			if len(c.Msgs) > 0 {
-				first = clip(c.Msgs[0].Payload)
-			}
-			res.Fail("publisher-envelope", "forwarder.Publisher (used by %d goroutines) published call #%d on topic %q with %d messages, first payload %q: not an envelope for a destination topic that still had a batch outstanding (forwarder topic %q)", len(topics), c.No, c.Topic, len(c.Msgs), first, eff)
-			return nil, false
-		}
-		b := perTopic[env.DestinationTopic][seen[env.DestinationTopic]]
-		seen[env.DestinationTopic]++
-		if len(c.Msgs) != len(b.orig) {
-			res.Fail("publisher-envelope", "forwarder.Publisher.Publish(%q, %d msgs) published %d envelopes", b.topic, len(b.orig), len(c.Msgs))
-			return nil, false
-		}
-		for i, m := range c.Msgs {
-			msgs = append(msgs, &relayMsg{Kind: "envelope", SrcTopic: eff, Orig: m, Valid: true, WantTopic: b.topic, Want: vlib.Snap(b.orig[i])})
-		}
-	}
-	for t, l := range perTopic {
-		if seen[t] != len(l) {
-			res.Fail("publisher-envelope", "forwarder.Publisher: %d Publish calls for destination %q returned nil, but only %d reached the wrapped publisher", len(l), t, seen[t])
-			return nil, false
-		}
+	// every outbox call was paired with its Publish call when it was made (ob.script): the envelope names the destination
+	// topic, the calls for one topic are made by one goroutine in plan order
+	msgs, ok := ob.judge(res, outbox, fwdTopic, eff, len(topics))
+	if !ok {
+		return nil, false
 	}
 	res.Count("outbox_gate_rounds_with_2plus_calls_waiting", co.multiRelease)
 	return msgs, true
